@@ -14,7 +14,7 @@ class Inner(param.Parameterized):
 
 
 def _params():
-    return dict(a=param.Number(default=0), b=param.Number(default=4), s=param.String(default=""),
+    return dict(a=param.Number(default=0, allow_None=True), b=param.Number(default=4, allow_None=True), s=param.String(default=""),
                 l=param.List(default=[]), t=param.Parameter(default=None), sub=param.Parameter(default=None),
                 d=param.Dict(default={"k": 1, "m": 2}))
 
@@ -50,7 +50,7 @@ NAN = float("nan")
 
 def value(p, tok):
     if p in ("a", "b"):
-        return {"0": 0, "3": 3, "neg": -2.5, "inf": float("inf"), "big": 1e300, "4": 4, "7": 7, "9": 9}[tok]
+        return {"0": 0, "3": 3, "neg": -2.5, "inf": float("inf"), "big": 1e300, "4": 4, "7": 7, "9": 9, "none": None}[tok]
     if p == "s":
         return {"empty": "", "plain": "x", "escapes": "it's \"q\"\n\\t\\", "unicode": "café \U0001F600"}[tok]
     if p == "l":
